@@ -231,7 +231,13 @@ def _v_toposort_edges_sorted_fast_path(tree):
     M.insert(g, "adj", "if not any(v < u for u, v in edges):\n    return Result(list(range(n_nodes)), n_nodes, n_nodes, n_nodes)")
 
 
+def _v_edges_reversed(tree):
+    g = M.find_func(tree, "strongly_connected_components_edges")
+    M.replace_stmt(g, lambda s: M.src_is(s, "adj[u].append(v)"), M.stmts("adj[v].append(u)"))
+
+
 VARIANTS = [
+    M.Variant("the edge-list SCC wrapper files each edge under its head: Tarjan runs on the reversed graph, components come out sources first (seed C14-Y)", SC, _v_edges_reversed, "C14-O1"),
     M.Variant("topological_sort_edges returns 0..n-1 when no edge points backwards - a self loop does not (seed C14-T)", SC, _v_toposort_edges_sorted_fast_path, "C14-O1"),
     M.Variant("edge-list wrappers drop self loops while building the successor lists (seed C14-O)", SC, _v_edges_wrappers_drop_self_loops, "C14-O1"),
     M.Variant("SCC follows neighbours outside the node set (original defect)", SC, _v_no_filter, "C14-O1"),
